@@ -97,6 +97,9 @@ def mk_mesh(ctx, coords, cycles, center_stub=None):
     for cid, cyc in cycles.items():
         m.c[cid] = ctx.call(C, cid, [m.v[i] for i in cyc])
         put(m.cells, cid, m.c[cid])
+    if ctx.mode != "sym":
+        # natively the mesh dictionaries must hold the ONLY references (the repo relies on __del__ running on `del d[k]`)
+        m.v, m.e, m.c = m.vertices, m.edges, m.cells
     KEEP.append(m)
     return m
 
